@@ -2,6 +2,7 @@
   C16 - Settlement transactions pay exactly the fixed fee, split with the oracle pool.
 -/
 import SettlusModel.Ante
+import SettlusModel.Proofs.Dec
 namespace Settlus.C16
 open Settlus
 
@@ -132,5 +133,13 @@ theorem settlement_tx_charged_fixed_fee (H : Str → Str) (a : AState) (tx : Tx)
 example : requiredFee Facts.defaultGasPrices [("uusdc".toList, 77777)] 10000 = some ("uusdc".toList, 10000) ∧
     collectorPart 333333333333333333 10000 = 6666 ∧ oraclePart 333333333333333333 10000 = 3333 ∧
     requiredFee Facts.defaultGasPrices [("uusdc".toList, 9999)] 10000 = none := by decide
+
+
+/-! ### the split the code computes -/
+
+/-- the two expressions of `CalculateFees`, translated from the source on every run, are the floor split of the model -/
+theorem fee_split_is_the_code (q f : Nat) (hq : q ≤ one18) :
+    GenDec.gasFee (q : Int) (f : Int) = ((collectorPart q f : Nat) : Int) ∧ GenDec.oracleFee (q : Int) (f : Int) = ((oraclePart q f : Nat) : Int) :=
+  fee_split_translated q f hq
 
 end Settlus.C16
